@@ -31,7 +31,7 @@ def cases(ctx):
 
 
 RULE = ("cases: C01 slices plus seeded cases up to length 12 (exact domain), ndim 1-2, three inner distances; per case "
-        "and engine (Python, C) the related calls: self distance, swapped series with swapped psi entries, window "
+        "and engine (Python, C) the related calls: self distance, swapped series with swapped psi entries (also under max_length_diff at and just below the length difference, and under pruning), window "
         "w+1 / none, each psi entry +1, max_step +1 / none, penalty +1, window=1 vs the Euclidean distance, and the "
         "mirrored entries of a non-triangular distance-matrix block; TLC judges each relation on the recorded values "
         "and the base value against Opt; the laws themselves are model-checked on the definition (Act M, invariant Laws); "
